@@ -48,7 +48,7 @@ def min_trap_grad(area, gmax, dgdt, dt):
 
         # finish design with discretization
         # make a flat portion of magnitude a and enough area for the swath
-        pts = np.floor(area / a / dt)
+        pts = max(np.floor(area / a / dt), 1)
         flat = np.ones((1, int(pts)))
         flat = flat / np.sum(flat) * area / dt
         if np.max(flat) > gmax:
@@ -64,7 +64,7 @@ def min_trap_grad(area, gmax, dgdt, dt):
             np.linspace(ramppts, 0, num=ramppts + 1) / ramppts * np.max(flat)
         )
 
-        trap = np.concatenate((ramp_up, np.squeeze(flat), ramp_dn))
+        trap = np.concatenate((ramp_up, flat.ravel(), ramp_dn))
 
     else:
         # negative-area trap requested?
